@@ -22,6 +22,9 @@ def apply(S, kind, p, inverse=False):
         return S.move(-p[0], -p[1]) if inverse else S.move(p[0], p[1])
     if kind == "movetuple":
         return S.move((-p[0], -p[1])) if inverse else S.move((p[0], p[1]))
+    if kind == "moveown":  # the translation is given as one of the shape's own vertex objects (the second vertex of its first curve)
+        v = S.jordans[0].vertices[1]
+        return S.move(v)
     if kind == "scale":
         return S.scale(1 / p[0], 1 / p[1]) if inverse else S.scale(p[0], p[1])
     if kind == "rotate":
@@ -42,7 +45,7 @@ def Rot(c, s):
 
 
 def tmap(kind, p, x, y):
-    if kind in ("move", "movetuple"):
+    if kind in ("move", "movetuple", "moveown"):
         return x + p[0], y + p[1]
     if kind == "scale":
         return x * p[0], y * p[1]
@@ -50,7 +53,7 @@ def tmap(kind, p, x, y):
 
 
 def det(kind, p):
-    if kind in ("move", "movetuple"):
+    if kind in ("move", "movetuple", "moveown"):
         return 1
     if kind == "scale":
         return p[0] * p[1]
@@ -79,7 +82,7 @@ class TransformPoly:
         n = self.n
         xs = [F(round(70 * math.cos(2 * math.pi * i / n)) + i, 7) for i in range(n)]
         ys = [F(round(70 * math.sin(2 * math.pi * i / n)) + (i * i) % 3, 7) for i in range(n)]
-        pq = {"move": [F(3, 2), F(-2, 5)], "movetuple": [F(3, 2), F(-2, 5)], "scale": [F(3, 2), F(2, 5)], "rotate": [F(3, 5), F(4, 5)]}[self.kind]
+        pq = {"move": [F(3, 2), F(-2, 5)], "movetuple": [F(3, 2), F(-2, 5)], "moveown": [F(0), F(0)], "scale": [F(3, 2), F(2, 5)], "rotate": [F(3, 5), F(4, 5)]}[self.kind]
         return xs + ys + pq
 
     def verts(self, xs):
@@ -103,7 +106,7 @@ class TransformPoly:
         z = tr.zvars
         n = self.n
         vs = [(z[i], z[n + i]) for i in range(n)]
-        p = (z[-2], z[-1])
+        p = (z[-2], z[-1]) if self.kind != "moveown" else vs[1]
         tv = [tmap(self.kind, p, x, y) for x, y in vs]
         pre = []
         if self.kind == "rotate":
@@ -138,7 +141,7 @@ class TransformPoly:
             return False, str(exc)
         n = self.n
         vs = self.verts(xs)
-        p = (xs[-2], xs[-1])
+        p = (xs[-2], xs[-1]) if self.kind != "moveown" else vs[1]
         tv = [tmap(self.kind, p, x, y) for x, y in vs]
         tol = F(0) if self.kind != "rotate" else F(1, 10**9)  # a float angle stands for the exact (cos, sin) pair in the replay
 
@@ -321,6 +324,8 @@ def specs(tier):
     Mo = "checks.c09"
     out = []
     kinds = ["move", "movetuple", "scale", "rotate"]
+    for n in (3, 4) if tier == "quick" else (3, 4, 5):
+        out.append(dict(module=Mo, scenario="TransformPoly", params=dict(n=n, kind="moveown"), time_budget=300))
     for n in (3, 4, 5) if tier == "quick" else (3, 4, 5, 6, 7, 8):
         for k in kinds:
             out.append(dict(module=Mo, scenario="TransformPoly", params=dict(n=n, kind=k, inverse=(n <= 4 or tier != "quick")), time_budget=300 if tier == "quick" else 1800))
